@@ -7,6 +7,7 @@ import (
 	"context"
 	"encoding/json"
 	"fmt"
+	"io"
 	"os"
 	"sort"
 	"strings"
@@ -14,7 +15,12 @@ import (
 	"testing"
 	"time"
 
+	"github.com/projecteru2/core/rpc"
+	pb "github.com/projecteru2/core/rpc/gen"
 	"github.com/projecteru2/core/types"
+	"google.golang.org/grpc"
+	"google.golang.org/grpc/codes"
+	"google.golang.org/grpc/status"
 
 	"verifharness/ckit"
 	"verifharness/hx"
@@ -23,12 +29,14 @@ import (
 // ---- C30: run-and-wait with scripted engine outcomes ----
 
 type lambdaShape struct {
-	Nodes   int              `json:"nodes"`
-	Count   int              `json:"count"`
-	Stdin   bool             `json:"stdin"`
-	Prior   int              `json:"prior"`
-	Scripts map[int]ctScript `json:"scripts"`          // by ERU_WORKLOAD_SEQ
-	Cancel  string           `json:"cancel,omitempty"` // count 1 only: the CALLER's context is cancelled when the engine is asked for "logs" / "wait"
+	Nodes    int              `json:"nodes"`
+	Count    int              `json:"count"`
+	Stdin    bool             `json:"stdin"`
+	Prior    int              `json:"prior"`
+	Scripts  map[int]ctScript `json:"scripts"`             // by ERU_WORKLOAD_SEQ
+	RPC      string           `json:"rpc,omitempty"`       // "" = Calcium.RunAndWait directly; "sync" / "async" = through the gRPC handler rpc.Vibranium.RunAndWait
+	SendFail int              `json:"send_fail,omitempty"` // rpc sync: stream.Send fails from the k-th output message on (k >= 1; 0 = never): the client is gone
+	Cancel   string           `json:"cancel,omitempty"`    // count 1 only: the CALLER's context is cancelled when the engine is asked for "logs" / "wait"
 }
 
 type createJ struct {
@@ -54,6 +62,7 @@ type lambdaCase struct {
 	Creates []createJ   `json:"creates"`
 	Msgs    []msgJ      `json:"msgs"`
 	Closed  bool        `json:"closed"`
+	NoMsgs  bool        `json:"no_msgs,omitempty"` // async rpc mode: the messages are only logged by the handler, not observable
 	Impl    stJ         `json:"impl"`
 	Err     string      `json:"err,omitempty"`
 }
@@ -123,41 +132,97 @@ func runLambda(t *testing.T, sh lambdaShape, id, tag string) *lambdaCase {
 			}
 		}
 	}
-	wids, ch, err := cl.C.RunAndWait(ctx, opts, inCh)
-	if err != nil {
-		c.Err = "refused"
-		c.Closed = true
-		c.Impl = c.Pre
-		return c
+	classify := func(wid string, data []byte, isErr bool) {
+		mj := msgJ{}
+		if wid != "" {
+			mu.Lock()
+			mj.ID = x.get(wid)
+			mu.Unlock()
+		}
+		switch {
+		case isErr:
+			mj.Kind = "error"
+		case strings.HasPrefix(string(data), "[exitcode] "):
+			mj.Kind = "exit"
+			fmt.Sscanf(strings.TrimPrefix(string(data), "[exitcode] "), "%d", &mj.Code)
+		default:
+			mj.Kind = "data"
+		}
+		c.Msgs = append(c.Msgs, mj)
 	}
-	timeout := time.After(15 * time.Second)
-loop:
-	for {
-		select {
-		case m, ok := <-ch:
-			if !ok {
-				c.Closed = true
+	var wids []string
+	if sh.RPC == "" {
+		var ch <-chan *types.AttachWorkloadMessage
+		var err error
+		wids, ch, err = cl.C.RunAndWait(ctx, opts, inCh)
+		if err != nil {
+			c.Err = "refused"
+			c.Closed = true
+			c.Impl = c.Pre
+			return c
+		}
+		timeout := time.After(15 * time.Second)
+	loop:
+		for {
+			select {
+			case m, ok := <-ch:
+				if !ok {
+					c.Closed = true
+					break loop
+				}
+				classify(m.WorkloadID, m.Data, m.StdStreamType == types.EruError)
+			case <-timeout:
 				break loop
 			}
-			mj := msgJ{}
-			if m.WorkloadID != "" {
-				mu.Lock()
-				mj.ID = x.get(m.WorkloadID)
-				mu.Unlock()
-			}
-			switch {
-			case m.StdStreamType == types.EruError:
-				mj.Kind = "error"
-			case strings.HasPrefix(string(m.Data), "[exitcode] "):
-				mj.Kind = "exit"
-				fmt.Sscanf(strings.TrimPrefix(string(m.Data), "[exitcode] "), "%d", &mj.Code)
-			default:
-				mj.Kind = "data"
-			}
-			c.Msgs = append(c.Msgs, mj)
-		case <-timeout:
-			break loop
 		}
+	} else {
+		// through the real gRPC handler with a scripted server stream
+		raw, _ := json.Marshal(map[string]any{"memory-request": int64(1 << 30), "cpu-request": 1.0, "cpu-bind": true})
+		st := &fakeRunStream{ctx: ctx, failFrom: sh.SendFail, first: &pb.RunAndWaitOptions{Async: sh.RPC == "async", DeployOptions: &pb.DeployOptions{
+			Name: "lam", Entrypoint: &pb.EntrypointOptions{Name: "run", Commands: []string{"true"}}, Podname: pod, Image: "img", Count: int32(sh.Count),
+			DeployStrategy: pb.DeployOptions_AUTO, IgnorePull: true, Resources: map[string][]byte{"cpumem": raw}}}}
+		v := rpc.New(cl.C, cl.Cfg, make(chan struct{}))
+		ret := make(chan error, 1)
+		go func() { ret <- v.RunAndWait(st) }()
+		returned := false
+		select {
+		case <-ret:
+			returned = true
+		case <-time.After(15 * time.Second):
+		}
+		if returned { // all tasks of the handler (incl. the async forwarder) finished?
+			fin := make(chan struct{})
+			go func() { v.Wait(); close(fin) }()
+			select {
+			case <-fin:
+				c.Closed = true
+			case <-time.After(15 * time.Second):
+			}
+		}
+		// give the workers a moment: on the unchanged code everything is done when the handler has returned
+		deadline := time.Now().Add(3 * time.Second)
+		for time.Now().Before(deadline) {
+			left := false
+			for _, ct := range cl.Hub.Containers("") {
+				if ct.Lambda {
+					left = true
+				}
+			}
+			if !left {
+				break
+			}
+			time.Sleep(20 * time.Millisecond)
+		}
+		st.mu.Lock()
+		for _, m := range st.got {
+			if m.StdStreamType == pb.StdStreamType_TYPEWORKLOADID {
+				wids = append(wids, m.WorkloadId)
+				continue
+			}
+			classify(m.WorkloadId, m.Data, m.StdStreamType == pb.StdStreamType_ERUERROR)
+		}
+		st.mu.Unlock()
+		c.NoMsgs = sh.RPC == "async"
 	}
 	cl.Quiesce()
 	mu.Lock()
@@ -195,6 +260,43 @@ loop:
 	return c
 }
 
+// fakeRunStream is the server side of a RunAndWait gRPC stream: one request, then Send is scripted
+// (it fails from the failFrom-th output message on: the client has gone away).
+type fakeRunStream struct {
+	grpc.ServerStream
+	ctx      context.Context
+	first    *pb.RunAndWaitOptions
+	failFrom int
+	mu       sync.Mutex
+	recvd    bool
+	nOut     int
+	got      []*pb.AttachWorkloadMessage // every message the handler tried to send
+}
+
+func (f *fakeRunStream) Context() context.Context { return f.ctx }
+func (f *fakeRunStream) Recv() (*pb.RunAndWaitOptions, error) {
+	f.mu.Lock()
+	defer f.mu.Unlock()
+	if !f.recvd {
+		f.recvd = true
+		return f.first, nil
+	}
+	return nil, io.EOF
+}
+func (f *fakeRunStream) Send(m *pb.AttachWorkloadMessage) error {
+	f.mu.Lock()
+	defer f.mu.Unlock()
+	f.got = append(f.got, m)
+	if m.StdStreamType == pb.StdStreamType_TYPEWORKLOADID {
+		return nil
+	}
+	f.nOut++
+	if f.failFrom > 0 && f.nOut >= f.failFrom {
+		return status.Error(codes.Unavailable, "transport is closing")
+	}
+	return nil
+}
+
 func genScript(r *hx.Rng, stdin bool) ctScript {
 	s := ctScript{Lines: r.Intn(4), Code: int64(hx.Pick(r, 0, 0, 1, 2, 137, 255))}
 	switch r.Intn(10) {
@@ -221,6 +323,11 @@ func lambdaCorpus() []lambdaShape {
 		{Nodes: 2, Count: 3, Prior: 1, Scripts: map[int]ctScript{0: {Lines: 1, LogsFail: true}, 1: {Lines: 2, WaitFail: true}, 2: {Lines: 0, Code: 255}}},
 		{Nodes: 1, Count: 1, Stdin: true, Scripts: map[int]ctScript{0: {Lines: 1, AttachFail: true}}},
 		{Nodes: 1, Count: 2, Scripts: map[int]ctScript{0: {StartFail: true}, 1: {Lines: 1, Code: 1}}},
+		// through the gRPC handler; the client disappears after the workload ids / after the first output message
+		{Nodes: 1, Count: 2, RPC: "sync", SendFail: 1, Scripts: map[int]ctScript{0: {Lines: 3, Code: 0}, 1: {Lines: 3, Code: 0}}},
+		{Nodes: 2, Count: 3, Prior: 1, RPC: "sync", SendFail: 2, Scripts: map[int]ctScript{0: {Lines: 2, Code: 1}, 1: {Lines: 0, Code: 0}, 2: {Lines: 3, WaitFail: true}}},
+		{Nodes: 1, Count: 2, RPC: "sync", Scripts: map[int]ctScript{0: {Lines: 1, Code: 0}, 1: {Lines: 2, Code: 7}}},
+		{Nodes: 1, Count: 2, RPC: "async", Scripts: map[int]ctScript{0: {Lines: 2, Code: 0}, 1: {Lines: 1, Code: 3}}},
 		// the caller goes away while the workload runs: it must still be removed
 		{Nodes: 1, Count: 1, Prior: 1, Cancel: "wait", Scripts: map[int]ctScript{0: {Lines: 2, Code: 3}}},
 		{Nodes: 1, Count: 1, Cancel: "logs", Scripts: map[int]ctScript{0: {Lines: 1, Code: 0}}},
@@ -240,6 +347,11 @@ func genLambda(t *testing.T, out *hx.Out, budget int) {
 		}
 		if sh.Count == 1 && !sh.Scripts[0].StartFail && r.Chance(25) {
 			sh.Cancel = hx.Pick(r, "wait", "logs")
+		} else if !sh.Stdin && r.Chance(30) {
+			sh.RPC = hx.Pick(r, "sync", "sync", "async")
+			if sh.RPC == "sync" && r.Chance(70) {
+				sh.SendFail = r.Range(1, 4)
+			}
 		}
 		shapes = append(shapes, sh)
 	}
